@@ -20,6 +20,7 @@ structure KLCtx (S : Schema) (s : Nat) : Prop where
   key : S.isKey (s + 1) = true
   keyNoUO : S.isUserOrd (s + 1) = false
   nd : S.isDupInst s = false
+  nameOk : 61 ∉ bs (S.name (s + 1))       -- no `=` in the name of the key (a YANG identifier)
 
 theorem KLCtx.l {S : Schema} {s : Nat} (C : KLCtx S s) : S.isKind s .list = true := by
   simp [Schema.isKind, C.kind]
